@@ -147,3 +147,108 @@ package lang
 //@   ensures[C12] illegal-char-position: err != nil && result0.Tag != EOF && l.src[result0.Pos] != '\'' && l.src[result0.Pos] != '"' ==> lineAt(l.src, result0.Pos - as(err, SyntaxError).Col, as(err, SyntaxError).SrcLine, as(err, SyntaxError).Line) && 0 <= as(err, SyntaxError).Col && as(err, SyntaxError).Col < len(as(err, SyntaxError).SrcLine)
 //@   modifies l.pos, l.tokenStart
 //@ spec func isSpecialStart(c byte) bool = c == '\n' || c == '$' || isDigitB(c) || isLetterB(c) || c == '_' || c == '\'' || c == '"'
+
+// ---------------------------------------------------------------- values: well-formedness and coercions (C01, C05)
+
+// Well-formedness of a Value: the payload pointer that its tag selects is present.
+// Assumed when a Value is loaded from a pre-existing heap location, proved at every
+// store, by-value argument and by-value result (govc type invariant).
+//@ spec func wfV(v Value) bool = (v.Tag == ValueStr ==> v.Str != nil && v.Proto != nil)
+//@   | && (v.Tag == ValueRegex ==> v.Str != nil)
+//@   | && (v.Tag == ValueNum ==> v.Num != nil)
+//@   | && (v.Tag == ValueBool ==> v.Bool != nil)
+//@   | && (v.Tag == ValueObj ==> v.Obj != nil && *v.Obj != nil)
+//@   | && (v.Tag == ValueNativeFn ==> v.NativeFn != nil)
+//@   | && (v.Tag == ValueFn ==> v.Fn != nil)
+//@   | && v.Tag <= ValueUnknown
+//@ typeinv Value wfV
+
+// The coercion tables of DESIGN.md section 3.1 (transcribed from the tables, not from the code).
+//@ spec func pfOK(s string) bool = smt("pf_ok", bool, s)
+//@ spec func pfVal(s string) float64 = smt("pf_val", float64, s)
+//@ spec func fmtNum(x float64) string = smt("fmtf", string, x)
+//@ spec func specNum(v Value) float64 = v.Tag == ValueNum ? *v.Num : (v.Tag == ValueBool ? (*v.Bool ? 1.0 : 0.0) : (v.Tag == ValueStr ? (pfOK(*v.Str) ? pfVal(*v.Str) : 0.0) : 0.0))
+//@ spec func specStr(v Value) string = v.Tag == ValueStr ? *v.Str : (v.Tag == ValueNum ? fmtNum(*v.Num) : "")
+//@ spec func specTruthy(v Value) bool = v.Tag == ValueBool ? *v.Bool : (v.Tag == ValueNum ? *v.Num != 0.0 : (v.Tag == ValueStr ? len(*v.Str) > 0 : (v.Tag == ValueArray || v.Tag == ValueObj || v.Tag == ValueFn || v.Tag == ValueNativeFn)))
+//@ spec func isContainerTag(t ValueTag) bool = t == ValueArray || t == ValueObj
+
+//@ func Value.asFloat64 [C05]
+//@   requires v != nil
+//@   ensures[C05] num-coercion: same(result, specNum(*v))
+//@   modifies nothing
+
+//@ func Value.String [C05]
+//@   requires v != nil
+//@   ensures[C05] str-coercion: result == specStr(*v)
+//@   modifies nothing
+
+//@ func Value.isTruthy [C05]
+//@   requires v != nil
+//@   ensures[C05] truthiness: result == specTruthy(*v)
+//@   modifies nothing
+
+// DESIGN.md 3.4 rows 2-6 (row 1, unset operands, is decided by the caller before Compare is reached).
+//@ func Value.Compare [C05]
+//@   requires v != nil && b != nil
+//@   ensures[C05] both-null: v.Tag == ValueNil && b.Tag == ValueNil ==> err == nil && result0 == 0
+//@   ensures[C05] left-null-smaller: v.Tag == ValueNil && b.Tag != ValueNil ==> err == nil && result0 == 0 - 1
+//@   ensures[C05] right-null-smaller: v.Tag != ValueNil && b.Tag == ValueNil ==> err == nil && result0 == 1
+//@   ensures[C05] containers-error-iff: (err != nil) <==> (v.Tag != ValueNil && b.Tag != ValueNil && (isContainerTag(v.Tag) || isContainerTag(b.Tag)))
+//@   ensures[C05] strings-bytewise: err == nil && v.Tag == ValueStr && b.Tag == ValueStr ==> result0 == smt("scmp", int, *v.Str, *b.Str)
+//@   ensures[C05] numeric-less: err == nil && v.Tag != ValueNil && b.Tag != ValueNil && !(v.Tag == ValueStr && b.Tag == ValueStr) && specNum(*v) < specNum(*b) ==> result0 == 0 - 1
+//@   ensures[C05] numeric-greater: err == nil && v.Tag != ValueNil && b.Tag != ValueNil && !(v.Tag == ValueStr && b.Tag == ValueStr) && specNum(*v) > specNum(*b) ==> result0 == 1
+//@   ensures[C05] numeric-equal: err == nil && v.Tag != ValueNil && b.Tag != ValueNil && !(v.Tag == ValueStr && b.Tag == ValueStr) && !(specNum(*v) < specNum(*b)) && !(specNum(*v) > specNum(*b)) ==> result0 == 0
+//@   ensures[C01] errkind: err != nil ==> !isSyn(err) && !isRT(err) && !isJsonErr(err) && !isFlow(err)
+//@   modifies nothing
+
+//@ spec func isFlow(err error) bool = err == errNext || err == errExit || err == errBreak || err == errContinue || err == errReturn
+
+//@ func Value.Not [C05]
+//@   requires v != nil
+//@   ensures[C05] negation: result != nil && fresh(result) && result.Tag == ValueBool && result.Bool != nil && *result.Bool == !specTruthy(*v)
+
+// ---------------------------------------------------------------- value constructors (C04, C05)
+
+// The Go values NewValue accepts: what encoding/json decodes into, plus the interpreter's own scalars and cell slices.
+//@ spec func isGoSrc(x any) bool = x == nil || istype(x, bool) || istype(x, float64) || istype(x, int) || istype(x, int64) || istype(x, string) || istype(x, "[]*Cell") || istype(x, "[]any") || istype(x, "[]string") || istype(x, "map[string]any")
+
+// The four prototype singletons: lazily initialised, then constant.  Trusted here; that the package
+// variables are written only by their own initialiser, and only while nil, is a structural obligation of C10.
+//@ func getArrayPrototype
+//@   trusted
+//@   pure
+//@   opt constant
+//@   ensures result != nil && result.Tag == ValueObj && result.Obj != nil && *result.Obj != nil
+//@ func getObjPrototype
+//@   trusted
+//@   pure
+//@   opt constant
+//@   ensures result != nil && result.Tag == ValueObj && result.Obj != nil && *result.Obj != nil
+//@ func getStrPrototype
+//@   trusted
+//@   pure
+//@   opt constant
+//@   ensures result != nil && result.Tag == ValueObj && result.Obj != nil && *result.Obj != nil
+//@ func getNumPrototype
+//@   trusted
+//@   pure
+//@   opt constant
+//@   ensures result != nil && result.Tag == ValueObj && result.Obj != nil && *result.Obj != nil
+
+//@ func NewValue [C04,C05]
+//@   requires isGoSrc(srcVal)
+//@   assume json-tree-elements: isGoSrc(arg0) @ NewValue
+//@   modifies nothing
+//@   loop 0 invariant len-tracks-index: rangeindex + 1 == len(arr) && rangeindex >= 0 - 1 && rangeindex + 1 <= len(val) && fresh(arr)
+//@   loop 1 invariant len-tracks-index: rangeindex + 1 == len(arr) && rangeindex >= 0 - 1 && rangeindex + 1 <= len(val) && fresh(arr)
+//@   loop 2 invariant own-map: obj != nil && fresh(obj)
+//@   ensures[C04] nil-is-null: srcVal == nil ==> result.Tag == ValueNil && result.ParentObj == nil && result.Str == nil && result.Num == nil
+//@   ensures[C04] bool: istype(srcVal, bool) ==> result.Tag == ValueBool && fresh(result.Bool) && *result.Bool == as(srcVal, bool)
+//@   ensures[C04] float: istype(srcVal, float64) ==> result.Tag == ValueNum && fresh(result.Num) && same(*result.Num, as(srcVal, float64))
+//@   ensures[C04] int: istype(srcVal, int) ==> result.Tag == ValueNum && fresh(result.Num) && same(*result.Num, float64(as(srcVal, int)))
+//@   ensures[C04] int64: istype(srcVal, int64) ==> result.Tag == ValueNum && fresh(result.Num) && same(*result.Num, float64(as(srcVal, int64)))
+//@   ensures[C04] string: istype(srcVal, string) ==> result.Tag == ValueStr && fresh(result.Str) && *result.Str == as(srcVal, string)
+//@   ensures[C04] cells: istype(srcVal, "[]*Cell") ==> result.Tag == ValueArray && result.Array == as(srcVal, "[]*Cell")
+//@   ensures[C04] array-length: istype(srcVal, "[]any") ==> result.Tag == ValueArray && len(result.Array) == len(as(srcVal, "[]any"))
+//@   ensures[C04] strings-length: istype(srcVal, "[]string") ==> result.Tag == ValueArray && len(result.Array) == len(as(srcVal, "[]string"))
+//@   ensures[C04] object: istype(srcVal, "map[string]any") ==> result.Tag == ValueObj && fresh(result.Obj)
